@@ -16,6 +16,7 @@
      Turn(side, cyc)         longest virtual time (carrier cycles) between receiving an LLC PDU and starting
                              the answer: bounded by the LTO the side announced and, for the target, by its RWT
      Broken(llc)             the link went down before the application closed it
+     Over(dir, sap, n, accepted)  send() on a data link connection was offered n octets for the peer's SAP `sap`
      Data(dir, kind, sent, rcvd, ok, problems)   what the receiving application got
 
    A behavioural mismatch is a STUCK of <id>.  The C19 invariants (Obey over the `sent` history with the
@@ -82,11 +83,14 @@ GWaits == IsEv("Waits") /\ ph = "up" /\ Same
 GTurn  == IsEv("Turn") /\ ph = "up" /\ Same
 GData  == IsEv("Data") /\ ph = "up" /\ Same
 GBroken == IsEv("Broken") /\ ph = "up" /\ Same
-Conform == GActivate \/ GFrame \/ GXfer \/ GLlc \/ GDep \/ GWaits \/ GTurn \/ GData \/ GBroken
+GOver   == IsEv("Over") /\ ph = "up" /\ Same
+Conform == GActivate \/ GFrame \/ GXfer \/ GLlc \/ GDep \/ GWaits \/ GTurn \/ GData \/ GBroken \/ GOver
 
 \* ---- the C19 invariants as post-conditions of a step of the real execution
-InvNames == <<"Obey", "BitRate", "Timeouts", "LtoKept", "RwtKept", "Delivered", "LinkUp">>
+InvNames == <<"Refused", "Obey", "BitRate", "Timeouts", "LtoKept", "RwtKept", "Delivered", "LinkUp">>
 InvP(n) == CASE n = "Obey" -> ObeyP(sent')
+             \* the sending side's socket refuses what the receiver does not allow (limit from the announcements on the air)
+             [] n = "Refused" -> (Ev.a = "Over" /\ Ev.n > Limit(c, conn, "i", Ev.dir, Ev.sap) => ~Ev.accepted)
              [] n = "BitRate" -> (Ev.a = "Dep" => \A f \in Range(Ev.frames) : f.brty = E0.brty /\ f.size >= 2)
              \* a deadline covers one whole exchange: every wait is at most the negotiated timeout, the first is equal
              [] n = "Timeouts" -> (Ev.a = "Waits" => /\ \A w \in Range(Ev.cyc) : w <= ExpWait(c, Ev.side) /\ w > 0
@@ -95,7 +99,8 @@ InvP(n) == CASE n = "Obey" -> ObeyP(sent')
              [] n = "RwtKept" -> (Ev.a = "Turn" /\ Ev.side = "T" => Ev.cyc <= 4096 * Pow2(E0.wt))
              [] n = "Delivered" -> (Ev.a = "Data" => Ev.ok /\ Ev.problems = 0 /\ Ev.rcvd <= Ev.sent)
              [] n = "LinkUp" -> Ev.a # "Broken"
-Detail(n) == CASE n = "Obey" -> {f \in sent' : f.size > f.limit}
+Detail(n) == CASE n = "Refused" -> <<Ev.n, Limit(c, conn, "i", Ev.dir, Ev.sap)>>
+               [] n = "Obey" -> {f \in sent' : f.size > f.limit}
                [] n = "BitRate" -> <<E0.brty>>
                [] n = "Timeouts" -> <<ExpWait(c, Ev.side), Ev.cyc>>
                [] n = "LtoKept" -> <<ExpTurn(c, Ev.side), Ev.cyc>>
